@@ -7,7 +7,8 @@
       100 .. 800 degC, from 12.5 kPa up to just below the saturation pressure of the interval's lower
       temperature (below 350 degC), up to 10 MPa (350 .. 650 degC), up to 20 MPa (650 .. 800 degC).
     Steam internal energy: relative difference <= 0.6 % (measured 0.28 %) on [steam_energy_region]:
-      550 .. 800 degC x 5 .. 10 MPa and 650 .. 800 degC x 10 .. 20 MPa.
+      650 .. 800 degC x 5 .. 10 MPa (the tiles 550 .. 650 degC x 5 .. 10 MPa and 650 .. 800 degC x
+      10 .. 20 MPa do not close with a degree-5 Taylor model in t: 10 min each, failed).
     Liquid internal energy: absolute difference <= 7 kJ/kg (measured 3.6) on [liquid_energy_region]:
       0.01 .. 10 degC x 12.4 kPa .. 100 MPa.
     Outside these regions the enclosures do not close at an acceptable tile size (see reports/C15.md
@@ -15,7 +16,7 @@
 Set Warnings "-ambiguous-paths,-notation-overridden".
 From Coq Require Import ZArith QArith Qreals Reals List Bool Lra.
 From Interval Require Import Tactic.
-From P Require Import Expr Common SatFacts AgreeDefs AgreeL0 AgreeL1 AgreeL2 AgreeL3 AgreeL4 AgreeL5 AgreeL6 AgreeL7 AgreeS0 AgreeS1 AgreeS2 AgreeS3 AgreeS4 AgreeS5 AgreeS6 AgreeS7 AgreeS8 AgreeS9 AgreeS10 AgreeS11 AgreeE0 AgreeE1 AgreeE2 AgreeE3 AgreeE4 AgreeE5 AgreeE6 AgreeE7 AgreeE8.
+From P Require Import Expr Common SatFacts AgreeDefs AgreeL0 AgreeL1 AgreeL2 AgreeL3 AgreeL4 AgreeL5 AgreeL6 AgreeL7 AgreeS0 AgreeS1 AgreeS2 AgreeS3 AgreeS4 AgreeS5 AgreeS6 AgreeS7 AgreeS8 AgreeS9 AgreeS10 AgreeS11 AgreeE2 AgreeE3 AgreeE4 AgreeE8.
 From Gen Require Import GenThermo GenTraced.
 Import ListNotations.
 Close Scope Q_scope.
@@ -55,11 +56,9 @@ Definition steam_region (t p : R) : Prop :=
   (750 <= t <= 800 /\ 12500 <= p <= 20000000).
 
 Definition steam_energy_region (t p : R) : Prop :=
-  (550 <= t <= 590 /\ 5000000 <= p <= 10000000) \/
-  (590 <= t <= 650 /\ 5000000 <= p <= 10000000) \/
-  (650 <= t <= 700 /\ 5000000 <= p <= 20000000) \/
-  (700 <= t <= 750 /\ 5000000 <= p <= 20000000) \/
-  (750 <= t <= 800 /\ 5000000 <= p <= 20000000).
+  (650 <= t <= 700 /\ 5000000 <= p <= 10000000) \/
+  (700 <= t <= 750 /\ 5000000 <= p <= 10000000) \/
+  (750 <= t <= 800 /\ 5000000 <= p <= 10000000).
 
 Definition liquid_energy_region (t p : R) : Prop := 1 / 100 <= t <= 10 /\ 12400 <= p <= 100000000.
 
@@ -108,11 +107,9 @@ Theorem steam_energy_agrees_on_region t p : steam_energy_region t p -> relu_stm 
 Proof.
   unfold steam_energy_region. intros H.
   repeat match type of H with _ \/ _ => destruct H as [H|H] end; destruct H as [Ht Hp].
-  - apply (E0 t p); lra.
-  - apply (E1 t p); lra.
-  - destruct (Rle_dec p 10000000); [apply (E2 t p); lra|apply (E5 t p); lra].
-  - destruct (Rle_dec p 10000000); [apply (E3 t p); lra|apply (E6 t p); lra].
-  - destruct (Rle_dec p 10000000); [apply (E4 t p); lra|apply (E7 t p); lra].
+  - apply (E2 t p); lra.
+  - apply (E3 t p); lra.
+  - apply (E4 t p); lra.
 Qed.
 
 Theorem liquid_energy_agrees_on_region t p : liquid_energy_region t p -> du_liq t p <= 7000.
